@@ -99,6 +99,10 @@ PROP = {'drive': ['Cff'], 'modules': ['SfntV.Props.C13'],
                  'values of at most nine digits, written as reals), CID fonts and FDSelect tables with 1023..1026 (3000 in the section '
                  'streams and in thorough) glyphs in format 0 and format 3, INDEX data of exactly 254/255/256 and 65534/65535/65536 bytes '
                  'in one and two objects, font names of 254/255/256 bytes (Name INDEX data exactly 255)',
+                 'ItalicAngle far outside [-180,180) (+-540, +-541, +-720, 1000, 1e4, 1e6, fractional): Read normalises it; the model of Read reduces '
+                 'the exact decimal modulo 360 (V cff.file.read on the written file) and the D predicate cff.file.rt2 evaluates the '
+                 'convergence clause on the real code (Write, Read, Write, Read: the second round trip reproduces the first and the angle lies '
+                 'in [-180,180))',
                  'encodings with 250..256 codes (contiguous, scrambled, partly ranged, range counts 1..256 around 127/128/129 and 255, '
                  'supplements) are a fixed boundary family: D cff.encoding.rt on the real code, V against the model, whole fonts with 255/256 '
                  'encoded glyphs; 256 glyphs in 256 ranges are refused by encodeEncoding (neither format can hold them), verdict only',
